@@ -75,6 +75,9 @@ pub struct ObsM {
 #[derive(Clone, Debug)]
 pub enum HAct {
     Write(Tag, WriteOp, Val),
+    /// decoder 4: like Write, but the handler drops its `Var` handle right after the write (it may
+    /// have been the last one: the variable must still be torn down, at the latest with the state)
+    WriteRelease(Tag, WriteOp, Val),
     DisallowSelf,
     /// decoder v2: the first time it runs, the handler creates an observer on this node and
     /// keeps it in the observer table (it must read NeverStabilised until the next stabilise)
@@ -96,6 +99,8 @@ pub struct SubM {
     pub acts: Vec<HAct>,
     /// where a handler-made subscription's token arrives
     pub token_cell: Option<Rc<std::cell::Cell<Option<SubscriptionToken>>>>,
+    /// a WriteRelease handler has run and given up its variable
+    pub released: bool,
 }
 
 #[derive(Default, Clone, Debug)]
@@ -183,6 +188,8 @@ pub struct Harness<'p> {
     node_handlers: u32,
     /// handles of closure-created variables the model never heard of (round cut short by a panic)
     stray_vars: Vec<incremental::Var<Val>>,
+    /// C13: where the injected fault hit (Some(true) = in an update handler, after propagation)
+    fault_in_handler: Option<bool>,
 }
 
 pub const EXPECTED_PANICS: [&str; 2] = ["node with too large height", "harness bug"];
@@ -216,6 +223,7 @@ impl<'p> Harness<'p> {
             tolerate_injected: false,
             node_handlers: 0,
             stray_vars: vec![],
+            fault_in_handler: None,
         }
     }
 
@@ -383,6 +391,8 @@ impl<'p> Harness<'p> {
             Err(m) => return self.on_panic("var write", m),
         };
         let old = self.model.write_now(tag, op, &operand);
+        // (replace_with hands back the old value with whatever its closure did to it)
+        let old = if op == WriteOp::ReplaceWith && crate::choice::dv() >= 4 { scramble(&old) } else { old };
         if let Some(r) = ret {
             if r != old {
                 self.fail("C08", "replace-return", format!("{op:?} on #{tag} returned {r:?}, the logical value before the write was {old:?}"));
@@ -742,7 +752,7 @@ impl<'p> Harness<'p> {
         let mut var_clones: Vec<Option<Var<Val>>> = vec![];
         for a in &acts {
             var_clones.push(match a {
-                HAct::Write(vt, ..) => self.vars.iter().find(|v| v.tag == *vt).and_then(|v| v.var.clone()),
+                HAct::Write(vt, ..) | HAct::WriteRelease(vt, ..) => self.vars.iter().find(|v| v.tag == *vt).and_then(|v| v.var.clone()),
                 _ => None,
             });
         }
@@ -837,6 +847,16 @@ impl<'p> Harness<'p> {
                     _ => {}
                 }
             }
+            for (a, vc) in acts2.iter().zip(var_clones.iter_mut()) {
+                let HAct::WriteRelease(vt, op, operand) = a else { continue };
+                if let Some(var) = vc.take() {
+                    let ret = do_write(&var, *op, operand);
+                    log(Event::Write { by: sid, from_handler: true, var: *vt, op: *op, operand: operand.clone(), ret });
+                    drop(var);
+                    log(Event::HandlerReleased { sub: sid, var: *vt });
+                    continue;
+                }
+            }
             for (a, vc) in acts2.iter().zip(var_clones.iter()) {
                 match (a, vc) {
                     (HAct::Write(vt, op, operand), Some(var)) => {
@@ -879,7 +899,7 @@ impl<'p> Harness<'p> {
             self.obs[oi].no_more_subs = true;
         }
         for a in &acts {
-            if let HAct::Write(vt, ..) = a {
+            if let HAct::Write(vt, ..) | HAct::WriteRelease(vt, ..) = a {
                 if let Some(v) = self.vars.iter_mut().find(|v| v.tag == *vt) {
                     v.handler_owner = Some(sid);
                 }
@@ -901,10 +921,11 @@ impl<'p> Harness<'p> {
             active: usable,
             acts,
             token_cell: None,
+            released: false,
         });
         if has_child {
             // placeholder for the subscription the handler will make: id = sid + 1
-            self.subs.push(SubM { id: sid + 1, obs: oi as u32, token: None, eligible_from: Round::MAX, initialised: false, dead: false, active: false, acts: vec![], token_cell: Some(child_token) });
+            self.subs.push(SubM { id: sid + 1, obs: oi as u32, token: None, eligible_from: Round::MAX, initialised: false, dead: false, active: false, acts: vec![], token_cell: Some(child_token), released: false });
         }
     }
 
@@ -1121,6 +1142,11 @@ impl<'p> Harness<'p> {
                 o.disallowed_in_handler = false;
             }
         }
+        for e in &events {
+            if let Event::HandlerReleased { sub, .. } = e {
+                self.subs[*sub as usize].released = true;
+            }
+        }
         // a handler that unsubscribed itself hears nothing from now on
         for e in &events {
             if let Event::HandlerUnsubscribed { sub } = e {
@@ -1153,6 +1179,7 @@ impl<'p> Harness<'p> {
     fn after_injected_fault(&mut self, r: Round, roots: &[Tag], root_obs: &[usize], events: &[Event]) {
         let role = trace::fault_role();
         let in_handler = role == Some(Role::Handler);
+        self.fault_in_handler = Some(in_handler);
         if in_handler {
             // propagation had finished: values must be the fully propagated ones
             self.model.process_round(roots, events);
@@ -1823,7 +1850,12 @@ impl<'p> Harness<'p> {
             let free: Vec<Tag> = self.vars.iter().filter(|v| v.var.is_some() && v.handler_owner.is_none()).map(|v| v.tag).collect();
             if !free.is_empty() {
                 let vt = free[ch.choose(free.len())];
-                acts.push(HAct::Write(vt, WRITE_OPS[ch.choose(5)], gen_value(ch)));
+                let (op, v) = (WRITE_OPS[ch.choose(5)], gen_value(ch));
+                if crate::choice::dv() >= 4 && ch.flag(1, 3) {
+                    acts.push(HAct::WriteRelease(vt, op, v));
+                } else {
+                    acts.push(HAct::Write(vt, op, v));
+                }
             }
         }
         // sibling subscriptions of the same observer may or may not run before this one (hash
@@ -1869,6 +1901,11 @@ impl<'p> Harness<'p> {
                 for a in &s.acts {
                     if let HAct::Write(vt, ..) | HAct::ObserveNew(vt) = a {
                         roots.push(*vt);
+                    }
+                    if let HAct::WriteRelease(vt, ..) = a {
+                        if !s.released {
+                            roots.push(*vt);
+                        }
                     }
                 }
             }
@@ -2028,6 +2065,39 @@ impl<'p> Harness<'p> {
     /// drop everything; any panic here is C04's (and C12's) business
     pub fn finish(mut self) -> CaseResult {
         let ticks = trace::ticks();
+        if self.tolerate_injected && self.poisoned && crate::choice::dv() >= 4 && ticks % 2 == 0 {
+            // C13: the caller lets go of the poisoned state *before* its observers and reads them
+            // afterwards: still no half-propagated value may come out
+            if let Some(in_handler) = self.fault_in_handler {
+                let state = self.state.take();
+                if let Err(m) = guarded(move || drop(state)) {
+                    self.on_panic("drop of the poisoned state", m);
+                }
+                self.trace.push("drop(state); read every observer".to_string());
+                for oi in 0..self.obs.len() {
+                    let clones: Vec<Observer<Val>> = self.obs_tbl.borrow()[oi].clones.iter().flatten().cloned().collect();
+                    for c in clones {
+                        let got = match guarded(|| read_obs(&c)) {
+                            Ok(g) => g,
+                            Err(m) => {
+                                self.fail("C13", "read-panicked", format!("reading o{oi} after the caught panic and the drop of the state panicked: {m}"));
+                                continue;
+                            }
+                        };
+                        let Ok(v) = got else { continue };
+                        if !in_handler {
+                            self.fail("C13", "value-after-fault", format!("a node function panicked during propagation and the state was dropped; o{oi} then returned a value ({v:?})"));
+                        } else if self.model.gave_up.is_none() && !self.obs[oi].disallowed_in_handler && self.obs[oi].state == OState::InUse {
+                            if let Some(Ok(want)) = self.expected_read_after(oi) {
+                                if want != v {
+                                    self.fail("C13", "handler-fault-values", format!("a handler panicked after propagation and the state was dropped; o{oi} returned {v:?}, the fully propagated value is {want:?}"));
+                                }
+                            }
+                        }
+                    }
+                }
+            }
+        }
         let obs_tbl = std::mem::replace(&mut self.obs_tbl, Rc::new(RefCell::new(Vec::new())));
         let subs = std::mem::take(&mut self.subs);
         let nodes = std::mem::take(&mut self.nodes);
